@@ -96,6 +96,15 @@ Event ==
         /\ mok' = (mok /\ m0.ok)
         /\ l' = l + 1 /\ tid' = tid /\ tcl' = tc
 
+\* the axioms a module declares, computed from its STRUCTURE (decl = [imports, axioms, raw]): imported modules first, in
+\* import order, recursively; then the module's own axioms (add_axiom skips an axiom equal to an earlier own one unless the
+\* list was assigned directly)
+RECURSIVE DeclaredAx(_), DeclaredImports(_), DedupAx(_, _)
+DedupAx(axs, acc) == IF axs = <<>> THEN acc
+                     ELSE DedupAx(Tail(axs), IF \E k \in 1..Len(acc) : Expand(acc[k]) = Expand(Head(axs)) THEN acc ELSE Append(acc, Head(axs)))
+DeclaredImports(ms) == IF ms = <<>> THEN <<>> ELSE DeclaredAx(Head(ms)) \o DeclaredImports(Tail(ms))
+DeclaredAx(d) == DeclaredImports(d.imports) \o (IF d.raw THEN d.axioms ELSE DedupAx(d.axioms, <<>>))
+
 \* end of trace: module-level clauses (only for traces that carry a final record)
 Finish ==
   /\ tid > 0 /\ (IF dead THEN TRUE ELSE l = Len(Traces[tid].events) + 1) /\ l <= Len(Traces[tid].events) + 1
@@ -106,7 +115,8 @@ Finish ==
                ELSE IF dead \/ ~mok \/ ms_claims_left THEN "not-accepted"
                ELSE IF tr.final.rust # "ok" THEN "not-accepted"
                ELSE ""
-         ax == [k \in 1..Len(tr.final.axioms) |-> ImgT(tr.final.axioms[k], syms)]
+         declared == IF tr.final.hasdecl THEN DeclaredAx(tr.final.decl) ELSE tr.final.axioms
+         ax == [k \in 1..Len(declared) |-> ImgT(declared[k], syms)]
          cl == [k \in 1..Len(tr.final.claims) |-> ImgT(tr.final.claims[k], syms)]
          c3 == IF ~tr.final.module \/ dead THEN ""
                ELSE IF mst.journal.axioms # ax THEN "journal-axioms"
